@@ -72,10 +72,12 @@ def render(n, names, top=False):
     raise ValueError(k)
 
 
-def grammar_text(rules, names, left_recursion=None):
+def grammar_text(rules, names, left_recursion=None, directives=()):
     out = []
     if left_recursion is not None:
         out.append(f'@@left_recursion :: {left_recursion}')
+    for key, value in directives:
+        out.append(f'@@{key} :: {value}')
     for i, body in enumerate(rules):
         out.append(f'{names[i]} = {render(body, names, True)} ;')
     return '\n'.join(out) + '\n'
@@ -444,13 +446,92 @@ def riflags(rules):
     return [[bool(r.ruleinfo.is_lrec), bool(r.ruleinfo.is_memo)] for r in rules]
 
 
+def _outcome(m, inp, kw, cfg=None):
+    """canonical outcome of m.parse(inp, [config=ParserConfig(**cfg)], **kw):
+    'ok:<json of the result>' | 'fail:<exception class>' | 'unbounded' | 'error:<class>'"""
+    import json
+    from tatsu.exceptions import FailedParse
+    from tatsu.util import asjson
+
+    def run():
+        kwargs = dict(kw)
+        if cfg is not None:
+            from tatsu.config import ParserConfig
+            kwargs['config'] = ParserConfig(**cfg)
+        try:
+            return 'ok:' + json.dumps(asjson(m.parse(inp, **kwargs)), sort_keys=True, default=repr)
+        except FailedParse as e:
+            return 'fail:' + type(e).__name__
+    r = _guarded(run, 10)
+    if r[0] == 'ok':
+        return r[1]
+    return 'unbounded' if r[0] in ('recursion', 'timeout') else 'error:' + r[1]
+
+
+def settings_inputs(inputs):
+    """at most 8 inputs of the battery, evenly spaced (the empty input first): every channel is run three times"""
+    if len(inputs) <= 8:
+        return list(inputs)
+    return [inputs[i] for i in sorted({round(k * (len(inputs) - 1) / 7) for k in range(8)})]
+
+
+def work_settings(obs, m, rules, names, inputs, settings):
+    """S7: the same grammar with the left-recursion / memoization switches set through every channel:
+    directives in the grammar text (-> configuration of the model) and, per parse, keyword settings and/or a
+    ParserConfig object.  Observations only; the expected values are computed by the caller."""
+    import tatsu
+    from tatsu.exceptions import GrammarError
+    st = {}
+    inputs = settings_inputs(inputs)
+    dtext = grammar_text(rules, names, directives=settings['directives'])
+    st['text'] = dtext
+
+    def comp(text):
+        try:
+            return ('compiled', tatsu.compile(text))
+        except GrammarError as e:
+            return ('GrammarError' if 'left-recursive' in str(e) else 'GrammarError-other', None)
+    sys.setrecursionlimit(1200)
+    d = _guarded(lambda: comp(dtext), 20)
+    st['compile'] = d[1][0] if d[0] == 'ok' else d[0] if d[0] != 'error' else 'error:' + d[1]
+    md = d[1][1] if d[0] == 'ok' else None
+    if md is not None:
+        st['config'] = [bool(md.config.left_recursion), bool(md.config.memoization)]
+        st['flags'] = flags(md.rules)
+    # the grammar in which the leaders of the parsed (optimized) grammar cannot match: what "left recursion off"
+    # means for a parse of a model that has leaders (recursive_call refuses to enter them)
+    leaders = set(obs.get('leaders_opt', []))
+    dead = [('nlook', ('void',)) if names[i] in leaders else b for i, b in enumerate(rules)]
+    x = _guarded(lambda: comp(grammar_text(dead, names)), 20)
+    mx = x[1][1] if x[0] == 'ok' else None
+    st['dead'] = x[1][0] if x[0] == 'ok' else x[0]
+    sys.setrecursionlimit(800)
+    st['base'] = [_outcome(m, inp, {}) for inp in inputs]
+    runs = []
+    for ch in settings['channels']:
+        kw, cfg, eff = ch['kw'], ch['cfg'], ch['eff']
+        row = {'on_directive_model': md is not None}
+        target = md if md is not None else m
+        if md is None:
+            eff = list(settings_effective([], kw, cfg)[1])
+        explicit = {'left_recursion': eff[0], 'memoization': eff[1]}
+        row['got'] = [_outcome(target, inp, kw, cfg) for inp in inputs]
+        # the same effective settings through the plainest channel: default model, both switches spelled out
+        row['canon'] = [_outcome(m, inp, explicit) for inp in inputs]
+        if not eff[0] and mx is not None:
+            row['dead'] = [_outcome(mx, inp, explicit) for inp in inputs]
+        runs.append(row)
+    st['runs'] = runs
+    obs['settings'] = st
+
+
 def work(job):
-    """job = (rules, names, inputs, nomemo or None).  Returns a dict of plain observations."""
+    """job = (rules, names, inputs, nomemo or None, settings or None).  Returns a dict of plain observations."""
     import tatsu
     from tatsu.exceptions import GrammarError, FailedParse
     from tatsu.peg.leftrec.pegen import mark_left_recursion
     sys.setrecursionlimit(1200)
-    rules, names, inputs, nomemo = job
+    rules, names, inputs, nomemo, settings = job
     text = grammar_text(rules, names)
     obs = {'text': text}
     c = _guarded(lambda: tatsu.compile(text), 20)
@@ -493,6 +574,7 @@ def work(job):
             obs['req_opt'] = tr_rules(op[1].rules)
             obs['flags_opt'] = flags(op[1].rules)
             obs['ri_opt'] = riflags(op[1].rules)
+            obs['leaders_opt'] = [r.name for r in op[1].rules if r.ruleinfo.is_lrec]
         except Untranslatable as e:
             obs['untranslatable'] = 'optimized: ' + str(e)
     outs = []
@@ -527,6 +609,8 @@ def work(job):
             obs['diag'] = diag
             break
     obs['parse'] = outs
+    if settings is not None and op[0] == 'ok' and 'untranslatable' not in obs:
+        work_settings(obs, m, rules, names, inputs, settings)
     return obs
 
 
@@ -767,15 +851,77 @@ def reentry_inputs():
     return out
 
 
+# ------------------------------------------------------------------ S7: the channels of the two switches
+# Left recursion is switched by `left_recursion` and, indirectly, by `memoization` (off forces left recursion off).
+# Both can be set in the grammar text (directives -> the configuration of the model) and again for one parse
+# (keyword settings, a ParserConfig object, or both).  Compile time (the GrammarError) looks at the model's
+# configuration, run time (recursive_call, the re-entry guard, memoize) at the configuration of the parse; the
+# stream sets the switches through every channel, in agreement and in conflict.
+def settings_effective(directives, kw, cfg):
+    """the harness's own reading of docs/config.rst / directives.rst: ((lr, memo) of the model, (lr, memo) of the parse)"""
+    d = dict(directives)
+    memo = d.get('memoization', True)
+    lr = d.get('left_recursion', True) and memo
+    comp = (bool(lr), bool(memo))
+    if cfg is not None:                      # a configuration object carries every field
+        memo = cfg.get('memoization', True)
+        lr = cfg.get('left_recursion', True) and memo
+    memo = kw.get('memoization', memo)
+    lr = kw.get('left_recursion', lr) and memo
+    return comp, (bool(lr), bool(memo))
+
+
+def random_settings(rng):
+    directives = []
+    v = rng.choice([None, True, False, False])
+    if v is not None:
+        directives.append(('left_recursion', v))
+    v = rng.choice([None, None, True, False])
+    if v is not None:
+        directives.append(('memoization', v))
+    rng.shuffle(directives)
+    channels = []
+    seen = set()
+    for _ in range(12):
+        kw = {}
+        v = rng.choice([None, True, True, False])
+        if v is not None:
+            kw['left_recursion'] = v
+        v = rng.choice([None, None, True, False])
+        if v is not None:
+            kw['memoization'] = v
+        cfg = None
+        if rng.random() < 0.3:
+            cfg = {}
+            for key in ('left_recursion', 'memoization'):
+                v = rng.choice([None, True, False])
+                if v is not None:
+                    cfg[key] = v
+        fp = repr((sorted(kw.items()), cfg and sorted(cfg.items())))
+        if fp in seen:
+            continue
+        seen.add(fp)
+        comp, eff = settings_effective(directives, kw, cfg)
+        channels.append({'kw': kw, 'cfg': cfg, 'eff': list(eff)})
+        if len(channels) == 4:
+            break
+    comp, _ = settings_effective(directives, {}, None)
+    return {'directives': directives, 'comp': list(comp), 'channels': channels}
+
+
+def settings_sig(items):
+    return ','.join(f'{"lr" if k == "left_recursion" else "memo"}={"T" if v else "F"}' for k, v in sorted(items))
+
+
 def make_jobs(chk: Check):
     rng = chk.rng
-    jobs = []   # (stream, rules, names, inputs, nomemo)
+    jobs = []   # (stream, rules, names, inputs, nomemo, settings)
     inputs_t = battery(['t'], chk.quick)
     inputs_tu = battery(['t', 'u'], chk.quick)
 
-    def add(stream, rules, names=None, inputs=None, nomemo=None):
+    def add(stream, rules, names=None, inputs=None, nomemo=None, settings=None):
         n = len(rules)
-        jobs.append((stream, rules, names or list(NAMES[:n]), inputs or inputs_t, nomemo))
+        jobs.append((stream, rules, names or list(NAMES[:n]), inputs or inputs_t, nomemo, settings))
 
     # S1: one rule, choices of <= 2 sequences of <= 2 atoms: exhaustive
     b1 = bodies(1, 2, 2)
@@ -836,6 +982,25 @@ def make_jobs(chk: Check):
         for kd in kinds:
             chk.count('reentry.' + kd)
         add('guard:between-entry-and-reentry', rules, names, inputs_g)
+    # S7: the switches through every channel (directives x keyword settings x configuration object), over
+    # grammars with visible cycles (leaders), hidden cycles (guard entries only) and none
+    for _ in range(120 if chk.quick else 800):
+        r = rng.random()
+        if r < 0.45:
+            rules, _kinds = reentry_grammar(rng)
+            n = len(rules)
+            names = [LETTERS[i] if i < len(LETTERS) else f'r{i}' for i in range(n)]
+            inputs = inputs_g
+        elif r < 0.7:
+            rules, names, inputs = digraph_grammar(3, rng.randrange(512), 'random', rng, nonedges=True), None, inputs_t
+        elif r < 0.85:
+            rules, names, inputs = [rng.choice(b22), rng.choice(b22)], None, inputs_t
+        else:
+            n = rng.randint(2, 5)
+            rules, names, inputs = random_grammar(rng, n, ['t', 'u']), random_names(rng, n), inputs_tu
+        st = random_settings(rng)
+        chk.count('settings.directives[' + settings_sig(st['directives']) + ']')
+        add('settings:channels', rules, names, inputs, settings=st)
     return jobs
 
 
@@ -850,6 +1015,73 @@ def parse_reply(rep):
     nullopt = [None if x == 'none' else (x[1] == '1') for x in bl(rep[4])]
     return {'head': marks_h, 'fixed': marks_f, 'graph': graph, 'rn': rn, 'nullopt': nullopt,
             'err_off': rep[5] == '1', 'err_on': rep[6] == '1'}
+
+
+def check_settings(chk, settings, o, inputs, guard, replay):
+    """S7 oracles; returns the number of violations (at most one per grammar: the first, by channel and input)"""
+    st = o['settings']
+    dirs = settings['directives']
+    comp = settings['comp']
+    dsig = 'dir[' + settings_sig(dirs) + ']'
+    replay = dict(replay, grammar=st['text'], directives=dirs)
+    leaders = any(f[0] for f in o['flags'])      # the marks compared with the Coq model above
+    want = 'GrammarError' if leaders and not comp[0] else 'compiled'
+    chk.evaluations += 1
+    chk.count('settings.compile.' + st['compile'])
+    if st['compile'] != want:
+        chk.violation(f'settings:error-when-off:{dsig}:want-{want}:got-{st["compile"]}',
+                      'GrammarError for left recursion is not "the grammar has leaders and left recursion is off for '
+                      'the model (switched off itself, or memoization is off)"', dict(replay, leaders=leaders, model_switches=comp))
+        return 1
+    if st['compile'] == 'compiled':
+        if st['config'] != comp:
+            chk.violation(f'settings:model-config:{dsig}:got[lr={st["config"][0]},memo={st["config"][1]}]',
+                          '(left_recursion, memoization) of the compiled model are not what the directives say',
+                          dict(replay, impl=st['config'], want=comp))
+            return 1
+        if st['flags'] != o['flags']:
+            chk.violation(f'settings:marks-depend-on-switches:{dsig}', 'the marks of the rules change with the directives',
+                          dict(replay, impl=st['flags'], default=o['flags']))
+            return 1
+
+    def cls(x):
+        return x.split(':')[0] if x.startswith('fail') else x
+
+    for ch, row in zip(settings['channels'], st['runs']):
+        eff = ch['eff']
+        on_d = row['on_directive_model']
+        if not on_d:
+            # the directive text does not compile (as it should): the channels are run on the default model
+            eff = list(settings_effective([], ch['kw'], ch['cfg'])[1])
+        psig = ('parse[' + settings_sig(ch['kw'].items())
+                + ('' if ch['cfg'] is None else ';config(' + settings_sig(ch['cfg'].items()) + ')') + ']')
+        esig = f'eff[{settings_sig([("left_recursion", eff[0]), ("memoization", eff[1])])}]'
+        chk.count('settings.effective.' + esig)
+        for j, inp in enumerate(settings_inputs(inputs)):
+            got, canon, base = row['got'][j], row['canon'][j], st['base'][j]
+            dead = row['dead'][j] if 'dead' in row else None
+            chk.evaluations += 1
+            kind = None
+            if got.startswith('error') or canon.startswith('error'):
+                kind = 'raised-' + (got if got.startswith('error') else canon).split(':')[1]
+            elif got == 'unbounded' and eff[0] and base != 'unbounded':
+                kind = 'unbounded-recursion-with-left-recursion-on'
+            elif got == 'unbounded' and guard:
+                kind = 'unbounded-recursion-inside-the-guard'
+            elif eff[0] and base != 'unbounded' and got != base:
+                kind = 'differs-from-the-default-settings'
+            elif got != canon:
+                kind = 'differs-from-the-plain-channel'
+            elif dead is not None and cls(got) != cls(dead):
+                kind = 'off-is-not-leaders-fail'
+            if kind:
+                chk.violation(f'settings:{kind}:{dsig if on_d else "dir[]"}:{psig}:{esig}',
+                              'a parse does not depend on the effective (left_recursion, memoization) only: same grammar, '
+                              'same input, same effective switches, set through different channels',
+                              dict(replay, on_directive_model=on_d, kw=ch['kw'], config=ch['cfg'], effective=eff, input=inp,
+                                   got=got, default_settings=base, plain_channel=canon, leaders_fail=dead))
+                return 1
+    return 0
 
 
 def detect_variant():
@@ -878,7 +1110,10 @@ def main():
                 'empty, with cuts inside lookaheads/optionals/closures/called rules, calls of left-recursive leaders and '
                 'rows of 1-12 memoized rule calls between the entry and the re-entry (inputs: all strings of <=2 of 3 '
                 'tokens and some of 3-4). Each compiled, compiled with @@left_recursion :: False, optimized, and parsed on all token strings '
-                'up to length 3 (+ one of length 6) under a recursion/timeout watchdog. Non-trivial: the grammar has at '
+                'up to length 3 (+ one of length 6) under a recursion/timeout watchdog. A sample of the grammars '
+                '(hidden / visible / no cycles) is also compiled with every combination of the @@left_recursion and '
+                '@@memoization directives and parsed with the switches set again per parse (keyword settings, '
+                'ParserConfig object, both), in agreement and in conflict with the directives. Non-trivial: the grammar has at '
                 'least one left call; distinct by grammar text.')
     chk.trusted += ['the translator tr() in c16.py from compiled grammar nodes to model expressions (class table tied to '
                     'the source by T1), the harness-side DFS oracle, Python re for Pattern nullability',
@@ -907,7 +1142,7 @@ def main():
     jobs = make_jobs(chk)
     nproc = max(2, min(10, (os.cpu_count() or 4) - 4))
     with ProcessPoolExecutor(max_workers=nproc) as ex:
-        results = list(ex.map(work, [(j[1], j[2], j[3], j[4]) for j in jobs], chunksize=8))
+        results = list(ex.map(work, [(j[1], j[2], j[3], j[4], j[5]) for j in jobs], chunksize=8))
 
     # ---- model requests in one batch
     reqs = []
@@ -924,9 +1159,10 @@ def main():
 
     bad_corr = 0
     bad_oracle = 0
+    bad_settings = 0
     untranslatable = 0
     for k, (job, o) in enumerate(zip(jobs, results)):
-        stream, rules, names, inputs, nomemo = job
+        stream, rules, names, inputs, nomemo, settings = job
         n = len(rules)
         nul, _ = true_nullable(rules)
         spec_graph = [sorted(spec_left_calls(b, lambda i: False)) for b in rules]
@@ -1079,7 +1315,13 @@ def main():
         if any(r.startswith('error') for r in outs):
             kinds = sorted({r for r in outs if r.startswith('error')})
             chk.violation('runtime:' + '+'.join(kinds), 'parse raised something other than FailedParse', dict(replay, outcomes=outs))
+        if settings is not None and 'settings' in o:
+            bad_settings += check_settings(chk, settings, o, inputs, guard, replay)
     chk.obligation('R1:(is_lrec, is_memo), optimized copy, GrammarError-when-off vs LeftRec.v', 'correspondence', bad_corr == 0)
+    chk.obligation('O2:the left-recursion / memoization switches through every channel (directives, keyword settings, '
+                   'configuration object): GrammarError iff leaders and the switch is off for the model; marks do not '
+                   'depend on the switches; a parse depends on the effective switches only; off = the leaders fail; '
+                   'on = no unbounded recursion', 'oracle', bad_settings == 0)
     chk.obligation('O1:left calls / detection / off-cycle rules vs harness DFS (inside the guard)', 'oracle', bad_oracle == 0)
     chk.obligation('T3:every node class met was translatable', 'translator', untranslatable == 0)
     chk.extra['pegen_hashes'] = got_hashes
